@@ -2,6 +2,7 @@ import Tw.Model.SnapMgr
 import Tw.Gen.SnapMgr
 import Tw.Proofs.SnapMgr
 import Tw.Proofs.SnapMgrSys
+import Tw.Proofs.SnapMgrInst
 
 /-!
 # C13 — client and server snapshot state never diverge silently
@@ -53,6 +54,29 @@ theorem accepted_snapshot_is_senders {S D : Type} (ops : Ops S D) (laws : Laws o
   · intro s hs; subst hs; exact h
   · intro hs; subst hs; exact h
   · intro e hs; subst hs; exact h
+
+/-- The laws hold for the concrete snapshot model `Tw.Snap` (`Model/Snap.lean`, properties C09–C11)
+over the snapshots with the builder's registry invariant (`ExtOk`, established for every
+builder-reachable snapshot by C10) whose item sizes agree with the object-size table: this is
+C09's `applyDelta_createDelta`, C10's `buildFromRaw_of_extOk` and `readDelta_writeInts`, and C08's
+`writeInt_length`. -/
+theorem laws_of_snapshot_model (objSize : Nat → Option Nat) : Laws (snapOps objSize) :=
+  snapOps_laws objSize
+
+/-- **C13 for the concrete snapshot model**: `accepted_snapshot_is_senders` with `Delta::create`,
+`Delta::write`, `Delta::read`, `Snap::read_with_delta` and `Snap::crc` of `Model/Snap.lean` as
+the snapshot layer — no law is assumed any more. -/
+theorem accepted_snapshot_is_senders_snap_model (objSize : Nat → Option Nat)
+    (evs : List (Ev { s : Tw.Snap.Snap // GoodSnap objSize s })) (hapi : sendsOk none evs)
+    (y : Sys { s : Tw.Snap.Snap // GoodSnap objSize s })
+    (obs : List (Obs { s : Tw.Snap.Snap // GoodSnap objSize s }))
+    (hrun : Sys.run (snapOps objSize) {} evs = .ok (y, obs)) :
+    Functional y.sent ∧
+    ∀ t res before after, Obs.delivered t res before after ∈ obs →
+      (∀ s, res = .ok (some s) → (t, s) ∈ y.sent ∧ after = some t) ∧
+      (res = .ok none → after = before) ∧
+      (∀ e, res = .error e → after = before ∨ after = none) :=
+  accepted_snapshot_is_senders (snapOps objSize) (snapOps_laws objSize) evs hapi y obs hrun
 
 /-- The invariant behind it: at every moment every snapshot stored on the receiving side under
 tick `t` is the sender's snapshot for `t`, the sender's base is a snapshot it still stores (with a
